@@ -151,9 +151,25 @@ func leafTypes() []string {
 	return out
 }
 
+// allTypeNames: every type that is meaningful as a stand-alone value; the value sets of open types
+// (structs whose alternatives carry referenceFieldValue) only ever occur behind their governing field.
 func allTypeNames() []string {
 	var out []string
-	for n := range ngapTypes {
+	for n, t := range ngapTypes {
+		openSet := false
+		if isChoiceType(t) {
+			for i := 1; i < t.NumField(); i++ {
+				if strings.Contains(t.Field(i).Tag.Get("aper"), "referenceFieldValue") {
+					openSet = true
+				}
+			}
+			if t.NumField() <= 2 {
+				openSet = true // a value set with one or no alternative: never a CHOICE of its own
+			}
+		}
+		if openSet {
+			continue
+		}
 		out = append(out, n)
 	}
 	sort.Strings(out)
